@@ -1688,6 +1688,13 @@ func (ex *Exec) builtin(b *ssa.Builtin, c *ssa.CallCommon, args []Value) Value {
 		return nil
 	case "print", "println":
 		return nil
+	case "ssa:wrapnilchk":
+		if p, ok := args[0].(Ptr); ok {
+			if p.Obj == nil {
+				ex.goPanic("value method called using nil pointer")
+			}
+			return p
+		}
 	case "min", "max":
 		a, bb := args[0].(*Term), args[1].(*Term)
 		if b.Name() == "min" {
